@@ -114,11 +114,12 @@ def run(ctx):
                     continue
                 before = v.fat_raw32(c) if v.ft == 32 else v.fat_entry(c)
                 after = v2.fat_raw32(c) if v.ft == 32 else v2.fat_entry(c)
-                if before != 0 and before != after:
+                low = (before & 0x0FFFFFFF) if v.ft == 32 else before      # a FAT32 entry is free when its low 28 bits are zero
+                if low != 0 and before != after:
                     problems.append(f"FAT entry {c} of an untouched cluster changed {before:#x} -> {after:#x}")
                     break
-                if before == 0 and after != 0 and v.ft == 32 and (after >> 28) != 0:
-                    problems.append(f"FAT entry {c}: reserved bits appeared")
+                if low == 0 and v.ft == 32 and (after >> 28) != (before >> 28):
+                    problems.append(f"FAT entry {c}: reserved bits changed {before:#x} -> {after:#x}")
                     break
             t1, _ = v.tree()
             t2, _ = v2.tree()
